@@ -61,9 +61,13 @@ def return_blocks(fn):
     return [i for i, b in enumerate(fn.bbs) if b['t'][0] == 'ret' and not b['cleanup']]
 
 
-def reachable(fn, starts, cut_blocks=(), cut_edges=(), unwind=False):
+def reachable(fn, starts, cut_blocks=(), cut_edges=(), unwind=False, _plain=False):
     """Blocks reachable from `starts` (inclusive) without entering cut_blocks
     or taking cut_edges ((a, b) pairs)."""
+    if not _plain and not unwind and getattr(fn, 'd', {}).get('inlined'):
+        # a helper's body was inlined here: its failure exits join its success exits at the old call site, and only the
+        # value tells them apart — follow variants / constants so that `helper()?` keeps its two outcomes apart
+        return reachable_cp(fn, starts, cut_edges=cut_edges, cut_blocks=cut_blocks)
     cut_blocks = set(cut_blocks)
     cut_edges = set(cut_edges)
     seen = set()
@@ -390,6 +394,7 @@ class Slice:
         self.params = set()      # argument locals reached (1..argc)
         self.param_fields = set()  # (param local, field) pairs
         self.binops = set()
+        self.closures = set()    # names of closure bodies built on the way
 
     def __repr__(self):
         return 'Slice(fields=%s calls=%s params=%s)' % (sorted(self.fields), sorted(self.calls), sorted(self.params))
@@ -450,6 +455,8 @@ def backward_slice(fn, start_ops, defs=None, cut_calls=(), max_nodes=4000, cd=No
                 rv = p[1]
                 if rv[0] == 'bin':
                     sl.binops.add(rv[1])
+                if rv[0] == 'agg' and '{closure' in rv[1]:
+                    sl.closures.add(rv[1])
                 if rv[0] in ('ref', 'disc'):
                     add_place(rv[1])
                 for op in rvalue_operands(rv):
@@ -790,8 +797,19 @@ def parent_fn(name):
 
 def with_closures(crate_fns, name):
     """The function and all closure / async bodies nested in it."""
-    pre = name + '::{'
-    return [f for n, f in crate_fns.items() if n == name or n.startswith(pre)]
+    pres = [name + '::{']
+    f0 = crate_fns.get(name)
+    # helpers that were inlined into this function (facts.apply_inlining): their closures belong to it as well
+    for h in (f0.d.get('inlined', []) if f0 is not None else []):
+        pres.append(h + '::{')
+    # a closure body may itself have helpers inlined
+    out = [f for n, f in crate_fns.items() if n == name or any(n.startswith(p) for p in pres)]
+    for g in list(out):
+        for h in g.d.get('inlined', []):
+            for n, f in crate_fns.items():
+                if n.startswith(h + '::{') and f not in out:
+                    out.append(f)
+    return out
 
 
 # ----------------------------------------------------------------------------
@@ -927,6 +945,8 @@ def outcome_edges(fn, local, kind=None, uses=None):
         if (l, k, pol) in seen:
             continue
         seen.add((l, k, pol))
+        if l == 0 and k in ('result', 'option', 'cf', 'bool'):
+            out.returned = True     # the value (or what map / map_err made of it) is the function's own result
         for u in uses.uses.get(l, []):
             tag = u[0]
             if tag == 'drop':
@@ -1112,7 +1132,7 @@ def reachable_cp(fn, starts, cut_edges=(), cut_blocks=(), init=None, max_states=
             continue
         seen.add((bb, st))
         if len(seen) > max_states:
-            return reachable(fn, starts, cut_blocks, cut_edges)
+            return reachable(fn, starts, cut_blocks, cut_edges, _plain=True)
         blocks.add(bb)
         env = dict(st)
         b = fn.bbs[bb]
@@ -1122,6 +1142,18 @@ def reachable_cp(fn, starts, cut_edges=(), cut_blocks=(), init=None, max_states=
                 continue
             l = d[0]
             rv = s[1]
+            # enum variants of Result / Option / ControlFlow values (key ('V', local))
+            vk = ('V', l)
+            if rv[0] == 'agg' and re.search(r'(Result::(Ok|Err)|Option::(Some|None)|ControlFlow::(Continue|Break))$', rv[1]):
+                env[vk] = rv[1].rsplit('::', 1)[1]
+            elif rv[0] == 'use' and rv[1][0] in ('c', 'm') and not rv[1][1][1] and ('V', rv[1][1][0]) in env:
+                env[vk] = env[('V', rv[1][1][0])]
+            elif rv[0] == 'disc' and not rv[1][1] and ('V', rv[1][0]) in env:
+                env[l] = {'Ok': 0, 'Err': 1, 'None': 0, 'Some': 1, 'Continue': 0, 'Break': 1}[env[('V', rv[1][0])]]
+                env.pop(vk, None)
+                continue
+            else:
+                env.pop(vk, None)
             if l in tup_src:
                 for key in [k for k in env if isinstance(k, tuple) and k[0] == l]:
                     env.pop(key, None)
@@ -1165,6 +1197,19 @@ def reachable_cp(fn, starts, cut_edges=(), cut_blocks=(), init=None, max_states=
         if t[0] == 'call':
             if not t[4][1]:
                 env.pop(t[4][0], None)
+                vk = ('V', t[4][0])
+                a0 = t[3][0] if t[3] else None
+                av = env.get(('V', a0[1][0])) if a0 is not None and a0[0] in ('c', 'm') and not a0[1][1] else None
+                if t[1].endswith('from_residual'):
+                    env[vk] = 'None' if fn.locals[t[4][0]].startswith('std::option::Option<') else 'Err'
+                elif t[1].endswith('Try::branch') and av is not None:
+                    env[vk] = 'Continue' if av in ('Ok', 'Some', 'Continue') else 'Break'
+                elif av is not None and re.search(r'Result::<.*>::(map_err|map|inspect|inspect_err)$|Option::<T>::(map|inspect)$', t[1]):
+                    env[vk] = av
+                elif av is not None and re.search(r'Option::<T>::(ok_or|ok_or_else)$', t[1]):
+                    env[vk] = 'Ok' if av == 'Some' else 'Err'
+                else:
+                    env.pop(vk, None)
         if t[0] == 'sw' and t[1][0] in ('c', 'm') and not t[1][1][1] and t[1][1][0] in env:
             v = str(env[t[1][1][0]])
             listed = dict(t[2])
